@@ -3,6 +3,7 @@ package load
 import (
 	"context"
 	"testing"
+	"time"
 
 	"github.com/ipfs/go-cid"
 	"pgregory.net/rapid"
@@ -20,6 +21,9 @@ type c09Prog struct {
 	Loads    []loadSpec `json:"loads"`
 	Merge    bool       `json:"merge"`              // the chosen replica first merges the others (multi-headed state)
 	HeadPerm []int      `json:"headPerm,omitempty"` // order in which the published head list names the heads (empty: the log's own order)
+	Known    []int      `json:"known,omitempty"`    // entries passed as FetchOptions.Exclude ("already have")
+	Timeout  bool       `json:"timeout,omitempty"`  // pass a generous fetch timeout (must not change anything)
+	FSort    bool       `json:"fsort,omitempty"`    // pass the ordering as FetchOptions.SortFn
 }
 
 func genLoadSpec(t *rapid.T) loadSpec {
@@ -39,6 +43,11 @@ func genC09(t *rapid.T) c09Prog {
 	if rapid.Bool().Draw(t, "permuteHeads") {
 		p.HeadPerm = rapid.SliceOfN(rapid.IntRange(0, 7), 1, 6).Draw(t, "headPerm")
 	}
+	if rapid.IntRange(0, 2).Draw(t, "withKnown") == 0 {
+		p.Known = rapid.SliceOfN(rapid.IntRange(0, 1<<12), 1, 3).Draw(t, "known")
+	}
+	p.Timeout = rapid.IntRange(0, 2).Draw(t, "withTimeout") == 0
+	p.FSort = rapid.Bool().Draw(t, "fsort")
 	n := rapid.IntRange(1, 3).Draw(t, "nloads")
 	for i := 0; i < n; i++ {
 		p.Loads = append(p.Loads, genLoadSpec(t))
@@ -103,6 +112,14 @@ func runC09(tb ev.TB, p c09Prog) ev.Result {
 	srcValues := world.Hashes(r.Log.Values())
 	nt := false
 	var classes []string
+	extra := loadExtra{SortFn: p.FSort}
+	if p.Timeout {
+		extra.Timeout = 5 * time.Minute
+	}
+	allEntries := r.Log.GetEntries().Slice()
+	for _, k := range p.Known {
+		extra.Known = append(extra.Known, allEntries[k%len(allEntries)])
+	}
 	for li, spec := range p.Loads {
 		loader := loaderNames[spec.Loader%4]
 		if loader == "hash" && len(heads) != 1 {
@@ -115,7 +132,7 @@ func runC09(tb ev.TB, p c09Prog) ev.Result {
 		var lerr error
 		var got *loadedLog
 		res := gatedOrPlain(tb, coll, w, spec, func() {
-			l, err := doLoad(ctx, w.Store.API(), w, loader, manifest, jsonLog, append([]iface.IPFSLogEntry(nil), heads...), hash, nil, spec.Concurrency, nil, 0)
+			l, err := doLoad(ctx, w.Store.API(), w, loader, manifest, jsonLog, append([]iface.IPFSLogEntry(nil), heads...), hash, nil, spec.Concurrency, nil, 0, extra)
 			lerr = err
 			if err == nil {
 				got = &loadedLog{id: l.GetID(), entries: world.SetOf(world.Hashes(l.GetEntries())), heads: world.SetOf(world.Hashes(l.Heads())), values: world.Hashes(l.Values()), length: l.Len()}
